@@ -207,6 +207,8 @@ class global_variables():
 
         if N is not None:
             self.N = N
+        if self.N is not None:
+            N = self.N  # a slot count set by an earlier call stays in force: keep t, dw, w on the current grid
             self.t = np.linspace(0, N*self.sps*self.dt, N*self.sps, endpoint=True)
             self.dw = 2*pi*self.fs/(N*self.sps)
             self.w = 2*pi*fftshift(fftfreq(N*self.sps))*self.fs
